@@ -62,6 +62,7 @@ def selftest():
   s2.set_style(SP.Color, styles.NamedColors.red.value)
   s3 = model.Span(doc)
   s3.set_begin(Fraction(1, 4))
+  s3.set_lang("ja")
   s3.set_style(SP.TextDecoration, styles.TextDecorationType(underline=True))
   s3.push_child(model.Text(doc, "c"))
   s2.push_child(s3)
@@ -110,8 +111,9 @@ def _upd(e, st_):
   c = e.get_style(SP.BackgroundColor)
   if c is not None:
     s2["bg"] = tuple(c.components)
-  if e.get_lang():
-    s2["lang"] = e.get_lang()
+  # the language of an element of the model is its own (the IMSC writer writes xml:lang="" for an element without one inside an
+  # element that has one): text enclosed by <lang> must sit in elements that carry the language themselves
+  s2["lang"] = e.get_lang() or None
   return s2
 
 
